@@ -106,8 +106,9 @@ BinaryLaws ==
 (* the limb-wise binary expansion of a fraction equals the digit-wise definition (first 24 bits);    *)
 (* the fractions are the numeral's digits repeated three times, so that carries cross limb borders  *)
 LimbLaw ==
-  LET d == x.n.ds \o x.n.ds \o <<9, 9, 9, 9, 9>> \o x.n.ds IN
-  FracBitsR(d, 24, <<>>) = FracBitsRef(d, 24, <<>>)
+  (x.n.sc = 0 /\ ~x.n.neg) =>            \* (once per digit sequence)
+    LET d == x.n.ds \o x.n.ds \o <<9, 9, 9, 9, 9>> \o x.n.ds IN
+    FracBitsR(d, 24, <<>>) = FracBitsRef(d, 24, <<>>)
 
 RoundSigLaw ==       \* rounding an integer to 2 significant digits, against integer arithmetic
   LET m == Norm(x.n) IN
